@@ -48,6 +48,7 @@ pub fn patch_sync(basis: &[u8], delta: &Delta) -> PatchOut {
 pub struct RecAsync<'a> {
     pub inner: Cursor<&'a [u8]>,
     pub log: Vec<(u64, usize, usize)>,
+    pub empty_reads: u32,
 }
 impl AsyncRead for RecAsync<'_> {
     fn poll_read(mut self: Pin<&mut Self>, cx: &mut Context<'_>, buf: &mut ReadBuf<'_>) -> Poll<std::io::Result<()>> {
@@ -56,7 +57,10 @@ impl AsyncRead for RecAsync<'_> {
         let want = buf.remaining();
         let r = Pin::new(&mut self.inner).poll_read(cx, buf);
         let got = buf.filled().len() - before;
-        self.log.push((pos, want, got));
+        if got > 0 || self.empty_reads < 8 {
+            self.log.push((pos, want, got));
+        }
+        crate::util::note_read(&mut self.empty_reads, want, got);
         r
     }
 }
@@ -70,7 +74,7 @@ impl AsyncSeek for RecAsync<'_> {
 }
 pub fn patch_async(basis: &[u8], delta: &Delta) -> PatchOut {
     let mut out = Vec::new();
-    let mut rr = RecAsync { inner: Cursor::new(basis), log: Vec::new() };
+    let mut rr = RecAsync { inner: Cursor::new(basis), log: Vec::new(), empty_reads: 0 };
     let res = guarded(|| block_on(AsyncCopiaSync::new().patch(&mut rr, delta, &mut out)));
     PatchOut { res, out, reads: rr.log }
 }
